@@ -1,2 +1,3 @@
 import Vflow.Props.C19
 import Vflow.Props.C14
+import Vflow.Props.C10
